@@ -322,6 +322,12 @@ func runC08(w *World, tier string) (bool, interface{}) {
 	}
 	c.L.RunUntil(done, 800*n)
 	if c.AllInState(round, StIdle, members) {
+		if w.Tape.Bool(1, 3, "daysBeforeSigning") {
+			// the batch is proposed and answered long after the key generation ended (the
+			// statement knows no deadline for a batch); a node rebuilt later must agree
+			w.Advance([]time.Duration{8 * 24 * time.Hour, 30 * 24 * time.Hour}[w.Tape.Choose(2, "daysBefore")])
+			w.Stats.Fault("clock-jump-before-signing")
+		}
 		before := len(c.Tr.Order)
 		c.ProposeFiles(w.Tape.Choose(n, "proposer"), round, map[string][]byte{"c08-a": []byte("first"), "c08-b": []byte("second")})
 		c.L.RunUntil(func() bool {
